@@ -793,6 +793,16 @@ func TestReplay(t *testing.T) {
 		t.Fatal(err)
 	}
 	rec := h.Begin("C07", "replay")
+	if h.ReplayPart(p) == "hub" {
+		var hc HubCase
+		if err := h.LoadReplay(p, &hc); err != nil {
+			t.Fatal(err)
+		}
+		o := runHubCase(hc)
+		fmt.Println("classes:", o.Classes)
+		rec.Report(t, hc, o)
+		return
+	}
 	o := runCase(c)
 	fmt.Println("classes:", o.Classes)
 	rec.Report(t, c, o)
